@@ -180,6 +180,12 @@ def conv_arg(vals, argtype, nd, scalar_ok=False):
         return None
     if not isinstance(vals, list):
         return vals
+    if nd == 1 and len(vals) == 1 and argtype in ("tuple", "numpy-scalars"):
+        # on one-dimensional objects a plain number stands for the one-component vector / point (zero included)
+        v = vals[0]
+        if argtype == "tuple":
+            return v
+        return np.int64(v) if isinstance(v, int) else np.float64(v)
     if argtype == "numpy-scalars":
         # numpy floats, numpy ints where the entry is a whole number
         return tuple(np.int64(v) if isinstance(v, int) else np.float64(v) for v in vals)
